@@ -115,6 +115,8 @@ class Loops:
         h = ex.heap
         shapes = self.engine.shapes
         if k == 'seq':
+            from .families import CAP
+            ex.assume(z3.Or(ex.is_fresh(d.ref), h.llen(d.ref) <= CAP))
             v = ex.known(h.lelt(d.ref, i))
             ty = shapes.elem_ty(ex, d.ref)
             if ty is not None:
@@ -135,6 +137,8 @@ class Loops:
             ex.assume(L.slen(Val.s(s)) == 1)
             return s
         if k in ('dictkeys', 'dictitems', 'dictvalues'):
+            from .families import CAP
+            ex.assume(z3.Or(ex.is_fresh(d.ref), h.dlen(d.ref) <= CAP))
             key = ex.known(h.dkey(d.ref, i))
             ex.assume(h.dhas(d.ref, key))
             ex.assume_elem(key)
@@ -184,8 +188,8 @@ class Loops:
             for f in ax(ex, env, i):
                 ex.assume(f)
 
-    def havoc_for_body(self, ex, env, body_nodes, names):
-        if has_effects(body_nodes):
+    def havoc_for_body(self, ex, env, body_nodes, names, force=False):
+        if has_effects(body_nodes) or force:
             ex.havoc(['F_ops_evaluated'])
             ex.havoc_data()
             ex.havoc_alloc()
@@ -211,13 +215,25 @@ class Loops:
                     raise Unsupported('loop modifies non-symbolic local %s' % n)
 
     # -- the generic loop ------------------------------------------------------------------------------
-    def run_loop(self, ex, key, env, desc, bind, body, body_nodes, mod_names, extra_inv=None, on_exit=None):
+    def run_loop(self, ex, key, env, desc, bind, body, body_nodes, mod_names, extra_inv=None, on_exit=None,
+                 own_lists=(), own_dicts=()):
         self.cur_mod_names[key] = [n for n in mod_names if env.has(n)]
         ex.event('loop_enter', key)
         self.check_invs(ex, key, env, z3.IntVal(0), 'entry', extra_inv)
         pre_existing = [n for n in mod_names if env.has(n)]
+        def havoc():
+            # containers the loop itself fills are not framed by the loop havoc
+            for r in own_lists:
+                ex.unprotect(r)
+            for r in own_dicts:
+                ex.unprotect_dict(r)
+            self.havoc_for_body(ex, env, body_nodes, pre_existing, force=bool(own_lists or own_dicts))
+            for r in own_lists:
+                ex.protect(r)
+            for r in own_dicts:
+                ex.protect_dict(r)
         if ex.branch(ex.fresh_bool('loop_iter'), 'loop-iter'):
-            self.havoc_for_body(ex, env, body_nodes, pre_existing)
+            havoc()
             i = ex.fresh_int('i')
             ex.assume(i >= 0)
             self.assume_invs(ex, key, env, i, extra_inv)
@@ -233,7 +249,7 @@ class Loops:
             self.check_invs(ex, key, env, i + 1, 'preserved', extra_inv)
             raise PathEnd()
         else:
-            self.havoc_for_body(ex, env, body_nodes, pre_existing)
+            havoc()
             i = ex.fresh_int('n')
             ex.assume(i >= 0)
             self.assume_invs(ex, key, env, i, extra_inv)
@@ -315,9 +331,11 @@ class Loops:
 
         def extra(i):
             n = ex.heap.llen(res)
+            from .families import CAP
+            cap = ('index-within-cap<%s>' % desc.kind, ['C03'], i <= CAP)
             if filtered:
-                return [('comp-len', ['C03', 'C07'], z3.And(n >= 0, n <= i))]
-            return [('comp-len', ['C03', 'C07'], n == i)]
+                return [('comp-len', ['C03', 'C07'], z3.And(n >= 0, n <= i)), cap]
+            return [('comp-len', ['C03', 'C07'], n == i), cap]
 
         def bind(v, i):
             ex.assign(gen.target, v, cenv)
@@ -334,7 +352,7 @@ class Loops:
 
         body_nodes = [node.elt] + list(gen.ifs)
         ex.protect(res)      # nobody else can reach the list under construction
-        self.run_loop(ex, key, cenv, desc, bind, body, body_nodes, set(), extra)
+        self.run_loop(ex, key, cenv, desc, bind, body, body_nodes, set(), extra, own_lists=[res])
         ex.unprotect(res)
         ex.event('comp_done', key, res, desc)
         return L.ListV(res)
@@ -350,7 +368,9 @@ class Loops:
 
         def extra(i):
             n = ex.heap.dlen(res)
-            return [('comp-len', ['C03', 'C07'], z3.And(n >= 0, n <= i))]
+            from .families import CAP
+            return [('comp-len', ['C03', 'C07'], z3.And(n >= 0, n <= i)),
+                    ('index-within-cap<%s>' % desc.kind, ['C03'], i <= CAP)]
 
         def bind(v, i):
             ex.assign(gen.target, v, cenv)
@@ -366,7 +386,8 @@ class Loops:
             self.engine.model.dict_store(ex, res, k, v, internal=True)
 
         ex.protect_dict(res)
-        self.run_loop(ex, key, cenv, desc, bind, body, [node.key, node.value] + list(gen.ifs), set(), extra)
+        self.run_loop(ex, key, cenv, desc, bind, body, [node.key, node.value] + list(gen.ifs), set(), extra,
+                      own_dicts=[res])
         ex.unprotect_dict(res)
         ex.event('dictcomp_done', key, res, desc)
         return L.DictV(res)
